@@ -4,6 +4,7 @@ import (
 	"bytes"
 	"encoding/json"
 	"fmt"
+	"reflect"
 	"strings"
 
 	"verif/ev"
@@ -225,7 +226,12 @@ func runC03(e *Env) {
 				c03One(e, c)
 			}
 			if r.Err == "" {
-				e.R.Fail(ev.Fail{Class: "C03/cli-differs-from-library", Msg: fmt.Sprintf("key %s: `crd text conv syllable` on the %d accepted chords prints something else than the library composition", b.key, len(b.idx)), Kind: "syllable", Case: c03Case{Key: b.key, Root: "C", Path: "cli"}})
+				// other bytes may be another YAML style of the same answers: compare what the documents say
+				got, gerr := readInstances(r.Out)
+				wantI, werr := readInstances(want.Bytes())
+				if gerr != nil || werr != nil || !reflect.DeepEqual(got, wantI) {
+					e.R.Fail(ev.Fail{Class: "C03/cli-differs-from-library", Msg: fmt.Sprintf("key %s: `crd text conv syllable` on the %d accepted chords answers something else than the library composition (%v)", b.key, len(b.idx), gerr), Kind: "syllable", Case: c03Case{Key: b.key, Root: "C", Path: "cli"}})
+				}
 			}
 			return
 		}
